@@ -21,6 +21,7 @@ Definition run (fam : bytes) (c : value) : value :=
   else if beq fam (B "lauth") then run_lauth c
   else if beq fam (B "slot") then run_slot c
   else if beq fam (B "fs") then run_fs c
+  else if beq fam (B "fsm") then run_fsm c
   else if beq fam (B "proxy") then run_proxy c
   else if beq fam (B "lauth_unique") then run_lauth_unique c
   else if beq fam (B "lifed") then run_lifed c
@@ -36,10 +37,11 @@ Definition chk (prop fam : bytes) (c o : value) : bool :=
   else if beq prop (B "C05") || beq prop (B "C06") then (if beq fam (B "srv") then chk_route c o else if beq fam (B "srvm") then chk_route_multi c o else true)
   else if beq prop (B "C09") then (if beq fam (B "bauth") then chk_C09 c o else if beq fam (B "bauthm") then chk_C09m c o else true)
   else if beq prop (B "C07") then (if beq fam (B "fs") then chk_C07 c o else true)
-  else if beq prop (B "C08") then (if beq fam (B "fs") then chk_C08 c o else true)
+  else if beq prop (B "C08") then (if beq fam (B "fs") then chk_C08 c o else if beq fam (B "fsm") then chk_C08m c o else true)
   else if beq prop (B "C12") then (if beq fam (B "proxy") then chk_C12 c o else true)
   else if beq prop (B "C13") then (if beq fam (B "proxy") then chk_C13 c o else true)
-  else if beq prop (B "C10") then (if beq fam (B "lifed") then chk_C10_lifed c o else if beq fam (B "life") then chk_C10_life c o else true)
+  else if beq prop (B "C10") then (if beq fam (B "lifed") then chk_C10_lifed c o else if beq fam (B "life") then chk_C10_life c o
+                                        else if beq fam (B "proxy") then chk_C11 c o else true)
   else if beq prop (B "C11") then chk_C11 c o
   else if beq prop (B "C20") then (if beq fam (B "tls") then chk_C20 c o else true)
   else if beq prop (B "C15") then (if beq fam (B "slot") then chk_C15 c o else true)
